@@ -239,6 +239,23 @@ class Driver:
                 if got != want:
                     how = "explicit" if fmt else "inferred"
                     bad.append((f"dispatch:{how}", f"{meth}({key!r}): expected {want}, reached {got}"))
+                if meth == "load_result" and fmt is not None:
+                    # the same with an EXISTING DIRECTORY as path (results are folders): an explicit format name still decides
+                    d = os.path.join(self.scratch, "result_folder")
+                    os.makedirs(d, exist_ok=True)
+                    del self.log[:]
+                    try:
+                        func(d, format_name=fmt)
+                        got = self.log[0][:2] if self.log else "nothing-called"
+                        if self.log and self.log[0][2] != meth:
+                            got = f"wrong method {self.log[0][2]}"
+                    except ValueError:
+                        got = "ValueError"
+                    except Exception as e:  # noqa
+                        got = f"{type(e).__name__}"
+                    self.rec.count("dispatch_checked")
+                    if got != want:
+                        bad.append(("dispatch:explicit:directory", f"load_result(<existing folder>, format_name={key!r}): expected {want}, reached {got}"))
         return bad
 
 
